@@ -23,7 +23,11 @@
    look-ups) is pointwise is established by the metamorphic runs (all shipped scorers except HPF,
    which is not installed), not by a theorem; "repeating a call returns identical scores, so
    scoring never alters the trained model" is likewise observed (exact equality of a repeated call
-   and of one more call after the permuted and split calls), not proved. *)
+   and of one more call after the permuted and split calls), not proved.  The same holds for the
+   caller's inputs: one query object is handed to all six calls and read back after each; the
+   history's (item, rating) pairs are compared with the supplied ones inside Coq
+   (Model/C04_scatter.v `kept_ok`, part of the correspondence term `call_kept_ok`), the remaining
+   fields, storage types, raw buffers and the candidate list by the harness (one flag per call). *)
 From Coq Require Import ZArith QArith List Bool Permutation.
 From LK Require Import Lib.QLib Model.C04_scatter Gen.C04_sites Proofs.C04_proofs.
 Import ListNotations.
